@@ -3,6 +3,7 @@ Model of `filter_functions/superoperator.py` and of `basis.expand` (Mathlib-free
 -/
 import FFVerif.Core.Mat
 import FFVerif.Gen.Einsum
+import FFVerif.Model.Proto
 
 namespace FFVerif.Model
 open FFVerif
@@ -34,4 +35,88 @@ def liouvilleToChoi {d N : Nat} (S : Mat K N N) (C : Vector (Mat K d d) N) :
   Mat.ofFn fun r c => t[Fin.hi r][Fin.lo r][Fin.hi c][Fin.lo c]
 
 end
+
+/-! ### `liouville_is_CP` / `liouville_is_cCP` up to the `eigh` oracle -/
+
+section cp
+variable {R K : Type}
+  [Zero R] [One R] [Add R] [Mul R] [Neg R] [Sub R] [Div R] [NatCast R] [RealOps R]
+  [Zero K] [One K] [Add K] [Mul K] [Neg K] [Sub K] [Div K] [CplxOps R K]
+
+/-- the vector of the maximally entangled state in `liouville_is_cCP`:
+`Omega = np.zeros(d2, dtype=float); Omega[::d+1] = 1/np.sqrt(d)` (`d2 = d²`, `d = int(sqrt(d2))`;
+the model takes `d` from the basis, for which `liouville_to_choi`'s reshape requires `d2 = d²`). -/
+def omegaVec (d : Nat) : Vec R (d * d) :=
+  Vector.ofFn fun r => if r.1 % (d + 1) = 0 then 1 / RealOps.sqrt ((d : Nat) : R) else 0
+
+/-- `Omega = np.multiply.outer(Omega, Omega)`: the projector `|Ω⟩⟨Ω|` (real array) -/
+def omegaState (d : Nat) : Mat R (d * d) (d * d) :=
+  let o : Vec R (d * d) := omegaVec d
+  Mat.ofFn fun r s => o[r] * o[s]
+
+/-- `Q = np.eye(Omega.shape[-1]) - Omega`: projector onto the complement of `Ω` (real array) -/
+def projQ (d : Nat) : Mat R (d * d) (d * d) :=
+  let Om : Mat R (d * d) (d * d) := omegaState d
+  Mat.ofFn fun r s => (if r = s then 1 else 0) - Om[r][s]
+
+/-- the argument of `eigh` in `liouville_is_cCP`: `Q @ choi @ Q` with
+`choi = liouville_to_choi(superoperator, basis)` (the real `Q` is promoted to complex by `@`). -/
+def projectedChoi {d N : Nat} (S : Mat K N N) (C : Vector (Mat K d d) N) :
+    Mat K (d * d) (d * d) :=
+  let Q : Mat K (d * d) (d * d) := Mat.map (CplxOps.ofReal (R := R)) (projQ d)
+  Mat.mul (Mat.mul Q (liouvilleToChoi S C)) Q
+
+/-- `np.abs(D).max(axis=-1)` for `n ≥ 1` eigenvalues (NumPy raises on an empty axis) -/
+def maxAbs {n : Nat} (D : Vec R n) : R :=
+  D.foldl (fun acc x => if RealOps.lt acc (RealOps.abs x) then RealOps.abs x else acc) 0
+
+/-- the default tolerance of both tests:
+`atol = basis._atol*np.maximum(1, np.abs(D).max(axis=-1, keepdims=True))`
+(`basis._atol = eps·d³` is an input). -/
+def defaultAtol {n : Nat} (basisAtol : R) (D : Vec R n) : R :=
+  let m : R := maxAbs D
+  basisAtol * (if RealOps.lt 1 m then m else 1)
+
+/-- `(D >= -atol).all(axis=-1)` -/
+def cpVerdictB {n : Nat} (D : Vec R n) (atol : R) : Bool :=
+  D.all fun x => RealOps.le (-atol) x
+
+/-- `liouville_is_CP` / `liouville_is_cCP` after the `eigh` call: `D` are the eigenvalues the
+oracle returned (for the Choi matrix, resp. the projected Choi matrix), `atol = none` is the
+default `atol=None`. -/
+def cpTestAfterEigh {n : Nat} (basisAtol : R) (atol : Option R) (D : Vec R n) : Bool :=
+  match atol with
+  | none => cpVerdictB D (defaultAtol basisAtol D)
+  | some a => cpVerdictB D a
+
+end cp
+
+/-! ### driver component -/
+
+open FFVerif.Proto in
+/-- driver component.
+`projq d` → `ok <(d², d²) real>` (the array `Q` of `liouville_is_cCP`);
+`projchoi d N S(N*N complex) C(N*d*d complex)` → `ok <(d², d²) complex>` (`Q @ choi @ Q`);
+`cpverdict n basisAtol atol(- = None) D(n real)` → `ok <0/1>` followed by the tolerance used. -/
+def handleSuperop (toks : List String) : Option String :=
+  match toks with
+  | ["projq", d] =>
+    let d := d.toNat!
+    let q : Mat Float (d * d) (d * d) := projQ d
+    some ("ok " ++ showFloats (q.toArray.foldl (fun acc x => acc ++ x.toArray) #[]))
+  | ["projchoi", d, N, S, C] =>
+    let d := d.toNat!; let N := N.toNat!
+    let r : Mat CF (d * d) (d * d) :=
+      projectedChoi (R := Float) (matC (parseFloats S) 0 N N) (ten3C (parseFloats C) 0 N d d)
+    some ("ok " ++ showFloats (flatC2 r))
+  | ["cpverdict", n, bAtol, atol, D] =>
+    let n := n.toNat!
+    let dv : Vec Float n := vecR (parseFloats D) 0 n
+    let a : Option Float := if atol == "-" then none else some (f0 atol)
+    let used : Float := match a with
+      | none => defaultAtol (f0 bAtol) dv
+      | some x => x
+    some ("ok " ++ showBools #[cpTestAfterEigh (f0 bAtol) a dv] ++ " " ++ showFloats #[used])
+  | _ => none
+
 end FFVerif.Model
